@@ -139,6 +139,7 @@ def run(chk, ctx, scope, oracle_names, n_quick, n_thorough, rules=None, families
     chk.cov['trace_totals'] = dict(stats_tot)
     chk.cov['not_explored_budget'] = notexp
     chk.cov['e2e_reader_plus_count_model'] = dict(e2e_stat)
+    chk.cov['counts_with_a_bystander_election_alive'] = sum(1 for r in res if r.get('bystander'))
     chk.cov['correspondence_scope'] = scope
     chk.cov['corpus_cases'] = len(corpus)
     if cases:
